@@ -17,7 +17,7 @@
   A function in which Python can raise half way returns the state reached *and* the exception
   (`T2 × Option Exc`), because the real object keeps its partial mutations.
 -/
-import PyTough.Py.Str
+import PyTough.Py.Num
 import PyTough.Gen.ConvertTables
 namespace Model.Convert
 open Py
@@ -429,5 +429,95 @@ def readNames (blocks : List Str) (lines : List Str) : List Item :=
 def readCons (blocks : List Str) (cons : List (Str × Str)) (lines : List (Str × Str)) : List Item :=
   if blocks.isEmpty then lines.map (fun p => .tup p.1 p.2)
   else (lines.filter cons.contains).map (fun p => .con p.1 p.2)
+
+end Model.Convert
+
+namespace Model.Convert
+open Py
+
+/-! ### SHORT at the level of name lines
+
+  `write_short_output` prints `SHORT` followed by `'%2d' % frequency` (when the key is there and the value is
+  true), then for each key that is present a sub-heading `ELEME` / `CONNE` / `GENER` and one line per item
+  (`block.name`; the names of a connection's two blocks; `gen.block + gen.name`), then a blank line.
+  `read_short_output` takes the frequency from columns 5–6 of the heading line, then reads sub-sections until
+  a blank line; each sub-reader collects lines until the next sub-heading or blank line and resolves them
+  against the grid / the generator lookup, silently dropping what it does not find.  (As for FOFT/COFT/GOFT
+  the `fix_blockname` / `unfix_blockname` layer is left to C01.) -/
+
+/-- decimal text of an integer, as `%d` prints it -/
+def intText (f : Int) : Str := if f < 0 then '-' :: Nat.toDigits 10 f.natAbs else Nat.toDigits 10 f.toNat
+
+/-- the heading line (`none`: the `%` operator raises, or the value is a float — not modelled) -/
+def shortHeader (so : Short) : Option Str :=
+  match so.freq with
+  | Option.none => some SHORT
+  | some .none => some SHORT
+  | some (.int f) => some (if f = 0 then SHORT else SHORT ++ rjust (intText f) 2)
+  | some _ => Option.none
+
+def shortBlockLine : Item → Option Str
+  | .blk n => some n
+  | .gen _ _ n => some n          -- a generator has a `.name` too
+  | _ => Option.none
+def shortConLine : Item → Option Str
+  | .con a b => some (a ++ b)
+  | _ => Option.none
+def shortGenLine : Item → Option Str
+  | .gen _ b n => some (b ++ n)
+  | _ => Option.none
+
+/-- a sub-section: nothing when the key is absent, else the sub-heading and one line per item -/
+def subLines (kw : Str) (f : Item → Option Str) : Option (List Item) → Option (List Str)
+  | Option.none => some []
+  | some l => (l.mapM f).map (kw :: ·)
+
+/-- heading line and the lines after it (the last one is the closing blank line) -/
+def writeShort (so : Short) : Option (Str × List Str) := do
+  let h ← shortHeader so
+  let a ← subLines ELEME shortBlockLine so.block
+  let b ← subLines CONNE shortConLine so.con
+  let c ← subLines GENER shortGenLine so.gen
+  pure (h, a ++ b ++ c ++ [[]])
+
+/-- `not line.strip()` -/
+def isBlankLine (l : Str) : Bool := l.all isStrWs
+/-- `line[0:5] in ['ELEME', 'CONNE', 'GENER']` -/
+def isSubHeading (l : Str) : Bool := [ELEME, CONNE, GENER].contains (slice l 0 5)
+
+/-- the lines a sub-reader collects, and the remaining lines starting with the one it stopped at -/
+def takeSub : List Str → List Str × List Str
+  | [] => ([], [])
+  | l :: r => if isBlankLine l || isSubHeading l then ([], l :: r)
+              else ((l :: (takeSub r).1), (takeSub r).2)
+
+def resolveBlocks (blocks : List Str) (ls : List Str) : List Item :=
+  ((ls.map (slice · 0 5)).filter blocks.contains).map .blk
+def resolveCons (cons : List (Str × Str)) (ls : List Str) : List Item :=
+  ((ls.map (fun l => (slice l 0 5, slice l 5 10))).filter cons.contains).map (fun p => .con p.1 p.2)
+def resolveGens (dict : List ((Str × Str) × Nat)) (ls : List Str) : List Item :=
+  (ls.map (fun l => (slice l 0 5, slice l 5 10))).filterMap (fun k => (dict.lookup k).map (fun i => .gen i k.1 k.2))
+
+/-- the loop of `read_short_output` (`fuel` ≥ number of lines + 1 is never exhausted) -/
+def readShortLoop (blocks : List Str) (cons : List (Str × Str)) (dict : List ((Str × Str) × Nat)) :
+    Nat → List Str → Short → Except Exc Short
+  | 0, _, so => .ok so
+  | _ + 1, [], so => .ok so
+  | fuel + 1, l :: r, so =>
+    if isBlankLine l then .ok so
+    else
+      let kw := slice l 0 5
+      if kw = ELEME then readShortLoop blocks cons dict fuel (takeSub r).2 { so with block := some (resolveBlocks blocks (takeSub r).1) }
+      else if kw = CONNE then readShortLoop blocks cons dict fuel (takeSub r).2 { so with con := some (resolveCons cons (takeSub r).1) }
+      else if kw = GENER then readShortLoop blocks cons dict fuel (takeSub r).2 { so with gen := some (resolveGens dict (takeSub r).1) }
+      else .error .keyError          -- read_fn[keyword]
+
+/-- `read_short_output(infile, headerline)` on the lines that follow the heading -/
+def readShort (blocks : List Str) (cons : List (Str × Str)) (dict : List ((Str × Str) × Nat))
+    (header : Str) (body : List Str) : Except Exc Short :=
+  let fr := match pyInt (slice header 5 7) with
+    | .ok i => PyV.int i
+    | .error _ => PyV.none
+  readShortLoop blocks cons dict (body.length + 1) body { freq := some fr }
 
 end Model.Convert
